@@ -80,6 +80,9 @@ func markRunInner(c Case, w *Worker, collect bool) (res Result) {
 		return tag + hex.EncodeToString(b) // 2 + 18 characters
 	}
 	nameMarks := []string{mk("nA"), mk("nB"), mk("nC"), mk("nD")}
+	if c.Seed%3 == 0 {
+		nameMarks = append(nameMarks, mk("nE")+"\xe9\xff") // a name that is not valid UTF-8 (legacy encodings)
+	}
 	contentMark := mk("cM") + mk("cN")
 	const uidM, gidM = 1234567, 1765432
 	const atM, mtM = int64(1234567890), int64(1198765432)
